@@ -28,7 +28,9 @@ def word(rng, lo=1, hi=8) -> str:
 def plain_key(rng) -> str:
     """single-word key: [A-Za-z_][\\w.-]*, not a placeholder word, not spelling a number/bool/none"""
     while True:
-        s = word(rng, 1, 7)
+        # mostly short; one in nine is long enough to use up the value column of the writer's layout
+        # (30 columns minus 4 per nesting level, minimum gap 8) at every nesting depth
+        s = word(rng, 1, 7) if rng.random() < 0.89 else word(rng, 14, 36)
         if any(w in s for w in RESERVED_WORDS) or spells_typed(s) or s in ("-", "_", "."):
             continue
         return s
